@@ -1,15 +1,22 @@
 /-
   Lemmas.CompressWitness — non-vacuity witnesses for Props.C01.Roundtrip and
-  Props.C02.Inspect, evaluated by the kernel (isolated here because each
-  `decide +kernel` takes 15–30 s: the kernel has no fast path for `UInt8`).
+  Props.C02.Inspect.
 
   The contract `ChoicesOK` holds for the simple executable choice function
   (`Model.Compress.simpleChoice`: naive BWT, two copies of the dummy table) on
   the blocks of the witness input of Props.C04.Blocks, `5 5 5 5 5 6 6` with
   capacity 4: `5 5 5 | 5 5 6 6` (`--sequential`, chunks of 2) and
   `5 5 5 | 5 | 5 6 6` (default mode, chunks of 4).
+
+  The block lists are evaluated by the kernel (under a second).  The contract
+  itself is no longer evaluated (that took 15–30 s per statement): it holds
+  for every non-empty block by `Lemmas.CompressSimple.simpleChoice_ok_rle`
+  (LF-mapping proof, Lemmas/BwtInverse*.lean); the driver still EVALUATES it on
+  every campaign case (checks/w23_roundtrip.py).
 -/
 import LbzVerif.Model.Compress
+import LbzVerif.Lemmas.CompressSimple
+import LbzVerif.Lemmas.CompressCut
 
 namespace LbzVerif.Lemmas.CompressWitness
 open LbzVerif LbzVerif.Model.Compress
@@ -20,9 +27,13 @@ theorem xCut : cutBlocks 4 2 true xInput = [[5, 5, 5], [5, 5, 6, 6]] ∧
     cutBlocks 4 4 false xInput = [[5, 5, 5], [5], [5, 6, 6]] := by decide +kernel
 
 theorem xChoices_seq : ∀ b ∈ cutBlocks 4 2 true xInput,
-    ChoicesOK (Spec.rle1 b) (simpleChoice (Spec.rle1 b)) := by decide +kernel
+    ChoicesOK (Spec.rle1 b) (simpleChoice (Spec.rle1 b)) :=
+  fun b hb => Lemmas.CompressSimple.simpleChoice_ok_rle b
+    (Lemmas.CompressCut.cutBlocks_mem 4 2 true xInput b hb).1
 
 theorem xChoices_non : ∀ b ∈ cutBlocks 4 4 false xInput,
-    ChoicesOK (Spec.rle1 b) (simpleChoice (Spec.rle1 b)) := by decide +kernel
+    ChoicesOK (Spec.rle1 b) (simpleChoice (Spec.rle1 b)) :=
+  fun b hb => Lemmas.CompressSimple.simpleChoice_ok_rle b
+    (Lemmas.CompressCut.cutBlocks_mem 4 4 false xInput b hb).1
 
 end LbzVerif.Lemmas.CompressWitness
